@@ -135,10 +135,14 @@ def dyadic_component_indices(level, finest, boundary):
     return idx
 
 
+def _flag(boundary, k):
+    return boundary[k] if isinstance(boundary, (list, tuple)) else boundary
+
+
 def sparse_grid_indices(index_set, finest, boundary):
     out = set()
     for l in index_set:
-        axes = [dyadic_component_indices(lk, finest, boundary) for lk in l]
+        axes = [dyadic_component_indices(lk, finest, _flag(boundary, k)) for k, lk in enumerate(l)]
         out.update(itertools.product(*axes))
     return out
 
